@@ -234,6 +234,9 @@ func caseDomain(c Case) string {
 	return string(b)
 }
 
+// thoroughTier is set by TestCheck (and by a replay from the replay file's tier).
+var thoroughTier bool
+
 func execute(t *testing.T, c Case) (kind, detail string, hsOK bool) {
 	res := bubble.Run(t, func() {
 		var hsOver atomic.Bool
@@ -272,7 +275,7 @@ func execute(t *testing.T, c Case) (kind, detail string, hsOK bool) {
 		}
 		var runaway atomic.Bool
 		dg.OnExchange = func(n int) {
-			if n > 10000 {
+			if n > 10000 && !hsOver.Load() { // a handshake that never ends; the transfers after it are bounded by their own loops
 				runaway.Store(true)
 				runtime.Goexit() // end the goroutine that keeps querying
 			}
@@ -314,10 +317,22 @@ func execute(t *testing.T, c Case) (kind, detail string, hsOK bool) {
 		down := int(cl.Serializer.Downstream.FragmentSize)
 		desc := fmt.Sprintf("negotiated type=%v up=%s/%d down=%s/%d", *cl.Serializer.Upstream.QueryType, cl.Serializer.Upstream.Encoder.Name(), up, cl.Serializer.Downstream.Encoder.Name(), down)
 		transfer := func(dir string, f int, wr interface{ Write([]byte) (int, error) }, rd interface{ Read([]byte) (int, error) }) bool {
-			for _, n := range []int{1, f - 1, f, f + 1, 3*f + 1} {
-				if n <= 0 {
-					continue
+			// every size up to 260 [thorough: 1200] (string and label limits of the record types are crossed by
+			// encodings of 150-255 bytes), then the sizes around the fragment size
+			dense := 260
+			if thoroughTier {
+				dense = 1200
+			}
+			var ns []int
+			for n := 1; n <= dense && n <= f+1; n++ {
+				ns = append(ns, n)
+			}
+			for _, n := range []int{f - 1, f, f + 1, 3*f + 1} {
+				if n > len(ns) {
+					ns = append(ns, n)
 				}
+			}
+			for _, n := range ns {
 				for _, fill := range []string{"ramp", "zero", "ff", "all256"} {
 					if fill != "ramp" && n != f && n != 3*f+1 {
 						continue
@@ -585,6 +600,7 @@ func TestCheck(t *testing.T) {
 			r.Fail(fmt.Sprintf("%s|best=%s|%s", kind, first, limitClass(c.Limit)), fmt.Sprintf("%s: %s", c, detail), len(c.Types)+c.Limit/100, c)
 		}
 	}
+	thoroughTier = r.Thorough()
 	if r.Replay != nil {
 		var c Case
 		r.DecodeReplay(&c)
